@@ -382,6 +382,13 @@ func (o *Obligation) BuildQuery() string {
 		b.WriteString(d)
 		b.WriteByte('\n')
 	}
+	// which dynamic types (interface tags) are comparable: == on two interfaces of an uncomparable dynamic type,
+	// and using one as a map key, panics at run time
+	e.v.mu.Lock()
+	for i, t := range e.te.tagTypes {
+		fmt.Fprintf(&b, "(assert (= (comparableTag %d) %v))\n", i+1, types.Comparable(t))
+	}
+	e.v.mu.Unlock()
 	for _, r := range e.v.ct.Raw {
 		b.WriteString(r)
 		b.WriteByte('\n')
